@@ -141,6 +141,13 @@ def run(rep: Report) -> None:
     rep.check(not extra, "vsl-class-diff", "LinkWithVsl overrides", f"{prog.modules[vsl.module].relpath}:{vsl.node.lineno}",
               f"LinkWithVsl also overrides {extra}: with equal equilibrium speed it no longer is Link's step",
               key="vsl-class")
+    # the stepped quantities of the configurations that carry controls (mainstream origin with
+    # its speed limit, links with signs) are the model's: in particular the limit is combined
+    # with the speed of the *first* segment of the fed link
+    from . import c01 as _c01
+
+    _c01.run(rep, only_prims=lambda pr: False,
+             only_cfg=lambda cfg: cfg.u_origin == "MainstreamOrigin" or cfg.link_cls == "LinkWithVsl")
     # a link with signs handles the positive_* options of a step exactly like a plain link
     from . import c11 as _c11
 
